@@ -79,13 +79,9 @@ theorem fstree_query_walk_contained (base pre wr : Path) (stat : Path → StatKi
     rw [hbf] at h
     dsimp only at h
     have hin := (fstree_contained base pre false wp hb hbf).1
-    cases hst : stat wp with
-    | dir => rw [hst] at h; cases h; exact hin
-    | file | absent =>
-      rw [hst] at h
-      cases h
-      have hne : wp ≠ base := by intro e; rw [e, hdir] at hst; cases hst
-      -- wp passed the scope check without being the base path: it starts with base ++ "/"
+    -- the parent of an accepted walk prefix other than the base path is still inside the base path
+    have hparent : wp ≠ base → Inside base (dirOf wp) := by
+      intro hne
       unfold buildFilePath at hbf
       simp only [Bool.false_eq_true, false_and, if_false, Bool.false_or] at hbf
       split at hbf
@@ -102,6 +98,19 @@ theorem fstree_query_walk_contained (base pre wr : Path) (stat : Path → StatKi
         refine ⟨h1, ?_⟩
         rw [h2, hx, List.dropLast_append_of_ne_nil (by simp)]
         exact List.prefix_append _ _
+    cases hst : stat wp with
+    | dir =>
+      rw [hst] at h
+      dsimp only at h
+      split at h
+      · cases h; exact hin
+      · rename_i hc
+        cases h
+        exact hparent (fun e => hc (Or.inr (Or.inr e)))
+    | file | absent =>
+      rw [hst] at h
+      cases h
+      exact hparent (fun e => by rw [e, hdir] at hst; cases hst)
 
 /-! ### Directory-structure helper: requested paths -/
 
@@ -347,6 +356,10 @@ example : buildFilePath (B "/a/root") (B "../root/k") true = .ok (B "/a/root/k")
 example : buildFilePath (B "/a/root") (B "") false = .ok (B "/a/root") := by decide
 example : queryWalkRoot (B "/a/root") (B "d/b") (fun p => if p = B "/a/root/d/b" then .file else .dir) = .ok (B "/a/root/d") := by decide
 example : queryWalkRoot (B "/a/root") (B "../root-other") (fun _ => .dir) = .error .integrity := by decide
+example : queryWalkRoot (B "/a/root") (B "d") (fun _ => .dir) = .ok (B "/a/root") := by decide
+example : queryWalkRoot (B "/a/root") (B "d/") (fun _ => .dir) = .ok (B "/a/root/d") := by decide
+example : queryWalkRoot (B "/a/root") (B "d/..") (fun _ => .dir) = .ok (B "/a/root") := by decide
+example : queryWalkRoot (B "/a/root") (B "") (fun _ => .dir) = .ok (B "/a/root") := by decide
 example : buildFilePath (B "/a/root") (B "d/../x") true = .ok (join2 (B "/a/root") (B "d/../x")) :=
   fstree_accepts_inside (B "/a/root") (B "d/../x") true (by decide) (by decide) (by decide) (by decide) (B "x") [] (by decide)
 -- DirStructure (#22): parent references behind a matching prefix
